@@ -300,6 +300,8 @@ def gen_op(rng, recipe, pool="all"):
         return {"m": "bbox", "via": via, "bboxes": boxes}
     if g == "hp01":
         kw = {"swells": rng.choice([1, 2, 3]), "smooth": rng.random() < 0.3, "wstype": rng.choice([0, 0, 1, 2])}
+        if rng.random() < 0.4:
+            kw.update(rng.choice([{"combine_extra_swells": False}, {"hs_min": 1.0}, {"angle_max": 60, "k": 1.0}, {"swells": None}, {"hs_min": 0.0, "k": 0.1}]))
         return {"m": "hp01", "via": via, "winds": rng.random() < 0.7, "kw": kw}
     if g == "fit":
         m = rng.choice(["fit_jonswap", "fit_gaussian"])
